@@ -23,8 +23,10 @@ fn region(v: &Bf) -> &'static str {
     }
     let r = Iv::point(v).sub(&hp.mul(&Iv::from_i64(k), p), p);
     let m = r.mag();
-    if m.is_zero() || m.msb() < v.msb() - 100 {
-        "x_within_2^-100_rel_of_odd_multiple_of_half_pi"
+    if m.is_zero() || m.msb() < v.msb() - 104 {
+        "x_within_2^-104_rel_of_odd_multiple_of_half_pi"
+    } else if m.msb() < v.msb() - 80 {
+        "x_within_2^-80_rel_of_odd_multiple_of_half_pi"
     } else {
         "other"
     }
@@ -129,6 +131,17 @@ pub fn alphabet(quick: bool) -> Vec<[f64; 2]> {
         if let Some((h, lo)) = d.to_dd_rn() {
             for s in [1.0, -1.0] {
                 v.push([s * h, s * lo]);
+            }
+            if !quick || k % 16 == 1 || k <= 64 || k > kmax {
+                // offsets between the double-double resolution and the f64 resolution of x: k*pi/4 + |x| 2^-j
+                for j in 58..=106 {
+                    for sg in [1.0, -1.0] {
+                        let l2 = lo + sg * h.abs() * 2f64.powi(-j);
+                        if dd_valid_fast(h, l2) {
+                            v.push([h, l2]);
+                        }
+                    }
+                }
             }
             if !quick || k % 8 == 1 || k <= 64 {
                 v.push([h, 0.0]);
